@@ -138,6 +138,57 @@ theorem multiOrder_sound_writer {α} {o : ColOrder α} (h : Lawful o) (z : α) (
 example : indexOrder (sint 32) 0#32 [some (0#32, 5#32), some (10#32, 50#32)] = 1 ∧
     indexOrder (sint 32) 0#32 [some (50#32, 51#32), some (60#32, 61#32)] = 1 := by decide
 
+/-- Members indexed by the BYTE_ARRAY indexer with ANY size limit (entries truncated, `orderOfBytes` over the
+    truncated entries, null pages stored as the empty string): a claim of the view is true of the TRUNCATED
+    entries a reader sees. Hypotheses: the exact bounds are byte strings with `min ≤ max`. -/
+theorem multiOrder_sound_bytes (lim : Nat) (members : List (List (Option (List Nat × List Nat))))
+    (hb : ∀ pages ∈ members, ∀ p ∈ pairsOf pages, (∀ x ∈ p.2, x ≤ 255) ∧ Trunc.lexLe p.1 p.2 = true) :
+    let cs := members.map (fun pages =>
+      (⟨recordedBytes lim pages, bytesIndexOrder lim pages == 1, bytesIndexOrder lim pages == 2⟩ : MChunk (List Nat)))
+    (multiAsc bytes cs = true →
+      (nonNullMins (multiPages cs)).Pairwise (fun a b => lexLt b a = false) ∧
+      (nonNullMaxs (multiPages cs)).Pairwise (fun a b => lexLt b a = false)) ∧
+    (multiDesc bytes cs = true →
+      (nonNullMins (multiPages cs)).Pairwise (fun a b => lexLt a b = false) ∧
+      (nonNullMaxs (multiPages cs)).Pairwise (fun a b => lexLt a b = false)) := by
+  intro cs
+  refine multiOrder_sound bytes_lawful cs ?_ ?_ ?_
+  · intro c hc _ p hp
+    obtain ⟨pages, hpg, rfl⟩ := List.mem_map.mp hc
+    -- p is the truncation of an exact entry q of the member
+    have : ∃ q ∈ pairsOf pages, p = (truncMinLim q.1 lim, truncMaxLim q.2 lim) := by
+      simp only [pairsOf, recordedBytes, List.mem_filterMap, List.mem_map, id] at hp ⊢
+      obtain ⟨a, ⟨b, hbm, rfl⟩, hap⟩ := hp
+      cases b with
+      | none => simp at hap
+      | some q => exact ⟨q, ⟨some q, hbm, rfl⟩, by simpa using hap.symm⟩
+    obtain ⟨q, hq, rfl⟩ := this
+    obtain ⟨hbytes, hle⟩ := hb pages hpg q hq
+    refine ⟨rfl, rfl, ?_⟩
+    have h1 : Trunc.lexLe (truncMinLim q.1 lim) q.1 = true := by
+      unfold truncMinLim; split
+      · exact truncMin_le _ _
+      · exact (lexLe_total q.1 q.1).elim id id
+    have h2 : Trunc.lexLe q.2 (truncMaxLim q.2 lim) = true := by
+      unfold truncMaxLim; split
+      · exact truncMax_ge _ _ hbytes
+      · exact (lexLe_total q.2 q.2).elim id id
+    have := lexLe_trans _ _ _ (lexLe_trans _ _ _ h1 hle) h2
+    simp [bytes, lexLt, this]
+  · intro c hc hclaim
+    obtain ⟨pages, _, rfl⟩ := List.mem_map.mp hc
+    have := (boundaryOrder_sound_bytes lim pages).1 (by simpa using hclaim)
+    rwa [nonNullOf_bytesIndexMins, nonNullOf_bytesIndexMaxs] at this
+  · intro c hc hclaim
+    obtain ⟨pages, _, rfl⟩ := List.mem_map.mp hc
+    have := (boundaryOrder_sound_bytes lim pages).2 (by simpa using hclaim)
+    rwa [nonNullOf_bytesIndexMins, nonNullOf_bytesIndexMaxs] at this
+
+-- limit 2: "abc".."abz" | "ac".."b" are recorded as "ab".."ac" | "ac".."b" and line up
+example : bytesIndexOrder 2 [some ([97, 98, 99], [97, 98, 122]), some ([97, 98, 122], [97, 98, 122, 1])] = 1 ∧
+    multiAsc bytes [⟨recordedBytes 2 [some ([97, 98, 99], [97, 98, 122]), some ([97, 98, 122], [97, 98, 122, 1])], true, false⟩,
+      ⟨recordedBytes 2 [some ([97, 99], [98]), some ([98], [98, 1])], true, false⟩] = true := by decide
+
 /-- Regression fact (the library before the repair): `IsDescending` compared the FIRST non-null page of a member
     with the LAST one of the next, so members (10,12)(1,2) | (8,9)(0,0) — each descending — were claimed descending
     as a whole although the mins 10,1,8,0 are not. The repaired mirror refuses the claim. -/
